@@ -26,7 +26,9 @@ def bondmaker(ex, repo):
 
 def atom(repo, name, element, bonded=None):
     A = repo.cls('propka.atom.Atom')
-    return xyz(name, A, element=element, bonded_atoms=list(bonded or []), cysteine_bridge=False)
+    # residue labels are arbitrary (symbolic): the bond rule may not look at them (C06)
+    return xyz(name, A, element=element, bonded_atoms=list(bonded or []), cysteine_bridge=False, res_num=I(name + '_resnum'),
+               chain_id=mk_str([I(name + '_chain')]), icode=mk_str([I(name + '_icode')]))
 
 
 REPLAY_PAIR = r'''
